@@ -19,9 +19,11 @@ namespace ratio
 
         rational est_cost;
 #ifdef H2_MAX
-        est_cost = rational::NEGATIVE_INFINITY;
+        est_cost = rational::ZERO;
         for (const auto &f : r.get_preconditions())
-            if (!f->is_expanded())
+            if (slv.get_sat_core().value(f->get_phi()) == False)
+                continue; // this flaw can no longer become active (since 'r' is not false, another of its causes is): it costs nothing to 'r'..
+            else if (!f->is_expanded())
                 return rational::POSITIVE_INFINITY;
             else // we compute the maximum of the flaws' estimated costs..
             {
@@ -32,7 +34,9 @@ namespace ratio
 #endif
 #ifdef H2_ADD
         for (const auto &f : r.get_preconditions())
-            if (!f->is_expanded())
+            if (slv.get_sat_core().value(f->get_phi()) == False)
+                continue; // this flaw can no longer become active (since 'r' is not false, another of its causes is): it costs nothing to 'r'..
+            else if (!f->is_expanded())
                 return rational::POSITIVE_INFINITY;
             else // we compute the sum of the flaws' estimated costs..
                 est_cost += f->get_estimated_cost();
